@@ -236,6 +236,22 @@ func (p *program) topLevelNames() []string {
 	return out
 }
 
+// topLevelDecls: the `name := …` statements directly at top level (source range and name).
+func (p *program) topLevelDecls() []site {
+	var out []site
+	for _, s := range p.file.Stmts {
+		if a, ok := s.(*parser.AssignStmt); ok && a.Token.String() == ":=" && len(a.LHS) == 1 && len(a.RHS) == 1 {
+			if id, ok := a.LHS[0].(*parser.Ident); ok && !reserved[id.Name] {
+				st, en := p.off(a.Pos()), p.off(a.End())
+				if st >= 0 && en <= len(p.src) && st < en && strings.HasPrefix(p.src[st:en], id.Name) {
+					out = append(out, site{st, en, id.Name})
+				}
+			}
+		}
+	}
+	return out
+}
+
 // hasTopLevelOnly: return/export at top level (outside function literals) or import anywhere.
 func (p *program) hasTopLevelOnly() bool {
 	found := false
